@@ -19,7 +19,7 @@
 From Coq Require Import List NArith ZArith Bool.
 From ApiFu Require Import Base.Sexp.
 From ApiFu Require Syn.Ast Vld.Ast Vld.TypeInfoModel Vld.TypeInfoPure Vld.ValidatorModel.
-From ApiFu Require Val.Values Val.CoerceModel Cost.CostModel Cost.CostArgs.
+From ApiFu Require Val.Values Val.CoerceModel Val.CoerceSpec Cost.CostModel Cost.CostArgs.
 From ApiFu Require ExeA.ArgData ExeA.ArgArgs.
 From ApiFu Require Import Pipe.Convert Pipe.Compose.
 Import ListNotations.
@@ -140,3 +140,19 @@ Definition parse_validate_cost (pi : Vld.ValidatorModel.order) (VS : Vld.Ast.sch
       end
   | FPanic _ | FOutOfFuel _ => CCrashed
   end.
+
+(** ** the schema hypotheses of the cost rule's totality: the input types and the argument types of
+    every field are closed (every named type they mention is defined: schema.New) *)
+Definition argdefs_closed (ES : ExeA.ArgData.schema) : bool :=
+  forallb (fun tf : ExeA.ArgData.name * list (ExeA.ArgData.name * ExeA.ArgData.argdefs) =>
+             forallb (fun fd : ExeA.ArgData.name * ExeA.ArgData.argdefs =>
+                        forallb (fun ad : ExeA.ArgData.name * Val.Values.in_def =>
+                                   Val.CoerceSpec.sty_closed (ExeA.ArgData.s_inputs ES) (Val.Values.in_type (snd ad)))
+                                (snd fd))
+                     (snd tf))
+          (ExeA.ArgData.s_argdefs ES).
+
+
+Definition cost_schema_accepted (ES : ExeA.ArgData.schema) : bool :=
+  Val.CoerceSpec.env_closed (ExeA.ArgData.s_inputs ES) && argdefs_closed ES.
+
